@@ -10,7 +10,7 @@
 From Coq Require Import ZArith List Bool.
 From DV Require Import Model.PyPrims Model.Tree Model.Heap Model.HeapOps Model.C15Prims Model.MutPrims Gen.Mutators
      Model.C03GenInst Proofs.C03GenPrims Proofs.C03GenNode Proofs.C03GenHeq Proofs.C03GenRemove Proofs.C03GenEdge
-     Proofs.C03GenTree Proofs.C03GenSu Proofs.C03GenReseed Proofs.C03GenPrune Proofs.C03GenMisc Proofs.C03GenPoly Proofs.C03GenEnc.
+     Proofs.C03GenTree Proofs.C03GenSu Proofs.C03GenReseed Proofs.C03GenPrune Proofs.C03GenMisc Proofs.C03GenPoly Proofs.C03GenEnc Proofs.C03GenOrder.
 From DV Require Import Model.C01GenPrims Gen.Bipartition Proofs.C03Base.
 Import ListNotations.
 Open Scope Z_scope.
@@ -273,6 +273,21 @@ Theorem polytomize_root_refines : forall (su : bool) (h : heap),
   to_hres (Tree_polytomize_root HG (fuel_of h) su h) = polytomize_root su h.
 Proof. exact (fun su h => conj gen_root_polytomy (gen_polytomize_root su h)). Qed.
 Print Assumptions polytomize_root_refines.
+
+(* Tree.reorder with its default key (the lambda in the signature, compiled to Tree_reorder__default_key:
+   the taxon label, "" without taxon; label_rank = the rank of a taxon's label in Python string order) *)
+Theorem reorder_refines : forall (asc : bool) (ranks : list (Z * Z)) (h : heap),
+  to_hres (Tree_reorder HG asc (Tree_reorder__default_key HG (rank_of ranks)) h) = reorder asc ranks h.
+Proof. exact gen_reorder. Qed.
+Print Assumptions reorder_refines.
+
+(* Tree.ladderize: the source's node_desc_counts dictionary (filled in post-order, read with
+   d[child] / d.__getitem__: a missing key is a KeyError) never misses on a well-formed heap and
+   equals HeapOps.desc_counts; same heap afterwards *)
+Theorem ladderize_refines : forall (asc : bool) (h : heap),
+  WF h -> to_hres (Tree_ladderize HG asc h) = ladderize asc h.
+Proof. exact gen_ladderize_wf. Qed.
+Print Assumptions ladderize_refines.
 
 (* ---- encode_bipartitions.  In the theorems above it is the interface operation x_encode_bipartitions,
    instantiated with HeapOps.encode_structural.  On every well-formed heap (C03's invariant WFt h t: h
